@@ -86,6 +86,15 @@ def body(ctx):
     specs.append(dict(seed=5, maxdata=1024 * 1024, rid='random', frag='whole', ops=[dict(api='push', size=3 * 1024 * 1024 + 17, src='bytesio', path='/big', mtime=7)]))
     specs.append(dict(seed=6, maxdata=4096, rid='high', frag='random', lid0=2 ** 32 - 2,
                       ops=[dict(api='shell', decode=False, cmd='\xff' * 40, chunks=['ff' * 4096]), dict(api='exec_out', decode=False, cmd='y', chunks=[])]))
+    # payload lengths that are exact multiples of common block sizes (4 KiB .. 256 KiB), and their neighbours
+    for e_ in range(12, 19):
+        for d_ in (-1, 0, 1):
+            n_ = (1 << e_) + d_
+            specs.append(dict(seed=n_, maxdata=1024 * 1024, rid='plus', frag='whole',
+                              ops=[dict(api='shell', decode=False, cmd='y' * (n_ - 7), chunks=[b'ok'.hex()]),          # OPEN payload b'shell:' + cmd + NUL has n_ bytes
+                                   dict(api='push', size=n_ - 8 - 15 - 8 - 8, src='bytesio', path='/' + 'p' * 8, mtime=3)]))  # one WRITE of exactly n_ bytes (SEND+DATA+DONE)
+    for mult in (3 * 16384, 5 * 16384, 65536 + 16384):
+        specs.append(dict(seed=mult, maxdata=1024 * 1024, rid='plus', frag='whole', ops=[dict(api='exec_out', decode=False, cmd='z' * (mult - 6), chunks=[])]))
     corpus = scen.run_corpus(specs)
     traces = [c[3] for c in corpus]
     frames = sum(1 for t in traces for e in t if e['ev'] == 'tx')
